@@ -522,6 +522,11 @@ class Hooks:
         # the microsecond rounding of the dates at which the model is evaluated
         floor = {"NodeListener": 1e-5, "ApsideListener": 1e-8, "RadialVelocityListener": 1e-8, "AnomalyListener": 1e-11, "StationSignalListener": 1e-11,
                  "StationMaskListener": 1e-11, "StationMaxListener": 1e-11, "TerminatorListener": 1e-13}.get(li.cls, 0.0)
+        if li.station_idx is not None or str(li.frame) in ("ITRF", "PEF", "TIRF", "WGS84"):
+            # Earth-fixed / topocentric quantities go through a Julian date held in a double (resolution ~40 us,
+            # i.e. ~3e-9 rad of Earth rotation): the library's own quantity is a staircase of that height
+            floor = {"NodeListener": 0.1, "ApsideListener": 1e-5, "RadialVelocityListener": 1e-5, "AnomalyListener": 1e-8, "StationSignalListener": 8e-9,
+                     "StationMaskListener": 8e-9, "StationMaxListener": 2e-11}.get(li.cls, floor)
         slope = abs(g2 - g1) / max(hi - lo, 1e-9)  # per ms
         slack = floor + slope * 0.0015
         if li.cls != "LightListener" and min(abs(g1), abs(g2)) <= slack:
